@@ -173,6 +173,12 @@ def check(ctx, rep):
                 callers.append((qualname(fn).split(':')[1], norm(c.args[0]) if c.args else ''))
     rep.ob('page.rebound-to-active-page', 'the gate is rebound only by Graphics.set_page, to the active page pixels',
            callers == [('Graphics.set_page', 'self._apage.pixels')], repr(callers), G)
+    # rebinding the gate must work whatever the viewport is: nothing in GraphicsViewPort.set_page depends on the clip
+    # rectangle (an assert comparing the page with the viewport size failed for every VIEW smaller than the screen)
+    gsp = ctx.fn(G + ':GraphicsViewPort.set_page')
+    dep = [norm(a) for a in own_nodes(gsp) if isinstance(a, ast.Attribute) and norm(a) in ('self.width', 'self.height', 'self._rect', 'self._active', 'self._absolute')]
+    rep.ob('page.rebound-whatever-the-viewport', 'GraphicsViewPort.set_page does not depend on the clip rectangle', not dep,
+           'set_page reads %s: switching the active page while a VIEW is set fails (AssertionError) after the display has recorded the new page' % dep, ctx.where(gsp))
     sp = ctx.fn(G + ':Graphics.set_page')
     st = [norm(s) for s in sp.body]
     rep.ob('page.rebound-to-active-page', 'active page = self._pages[apagenum]', 'self._apage = self._pages[apagenum]' in st and
@@ -229,6 +235,8 @@ def variants(ctx):
         return lambda tree: f(mu.find_def(tree, f_name))
 
     return [
+        mu.Variant('page-switch-asserts-viewport-size', 'break', G,
+                   lambda tree: mu.replace_expr(mu.find_def(tree, 'GraphicsViewPort.set_page'), mu.text_is('self._max_width'), 'self.width'), expect='page.rebound-whatever-the-viewport'),
         Va('set-page-skips-unchanged-number', 'break', G,
            lambda tree: mu.insert_first(mu.find_def(tree, 'Graphics.set_page'), 'if apagenum == getattr(self, "_apagenum", None):\n    return'), expect='page.rebound-on-every'),
         Va('graphics-follow-visible-page', 'break', D,
